@@ -3,7 +3,10 @@
 Sides:
   implementation  build/cargo/debug/hx_c18  (YamlDecoder::decode under 7 trap configurations, watchdog; `text` mode =
                   Yaml::load_from_str)
-  model           build/ocaml_c18/mx        (extracted coq/Model/Decode.v: choose_encoding; decode_loop over the toy decoder)
+  model           build/ocaml_c18/mx        (extracted coq/Model/Decode.v: choose_encoding; decode_loop over the toy decoder;
+                                             coq/Model/Decoders.v: decode_model = detection + UTF-8 / UTF-16 decoder models with
+                                             BOM sniffing inside the loop; coq/Spec/EncodingSpec.v: decode_spec, the one-shot
+                                             specification the theorems equate it with)
   independent     Python's own utf-8 / utf-16-le / utf-16-be codecs (strict / ignore / replace)
 
 Oracle (on the implementation's outputs):
@@ -15,10 +18,18 @@ Oracle (on the implementation's outputs):
      trap they imitate and see the right arguments;
   C  the loop model over the toy decoder agrees with the implementation on UTF-16LE input without surrogates
      (result class, error index and length, output length).
+  D  the decoder models (coq/Model/Decoders.v: UTF-8, UTF-16LE/BE, BOM sniffing, capacity discipline) inside the loop
+     model, extracted (`mx model`), and the one-shot specification (`mx spec`, coq/Spec/EncodingSpec.v: decode_spec)
+     against the real `decode` on every byte string of B: result text (through the documents it loads as), error index and
+     malformed bytes; under observing callbacks every invocation must agree in (malformation length, bytes after, rest of
+     the input, capacity of the output String, characters decoded since the last invocation).  The callbacks
+     obs-shrink<K> leave exactly K spare bytes, which makes the decoder's OutputFull rule visible in the capacity
+     observed at the next malformation.
 """
 import itertools
 import json
 import os
+import time
 
 from . import core, gen
 from .core import Result, prepare, run_bin, run_mx
@@ -31,6 +42,9 @@ ENCODINGS = [("utf8", "utf-8", b""), ("utf8+bom", "utf-8", b"\xef\xbb\xbf"),
              ("utf16le", "utf-16-le", b""), ("utf16le+bom", "utf-16-le", b"\xff\xfe"),
              ("utf16be", "utf-16-be", b""), ("utf16be+bom", "utf-16-be", b"\xfe\xff")]
 PYCODEC = {"utf8": "utf-8", "utf16le": "utf-16-le", "utf16be": "utf-16-be"}
+OBS_ALL = ["obs-replace", "obs-ignore", "obs-break", "obs-breakmsg"]
+OBS_SHRINK = ["obs-shrink0", "obs-shrink1", "obs-shrink2", "obs-shrink3", "obs-shrink4", "obs-shrink5", "obs-shrink7"]
+MODEL_MAXLEN = 320          # the extracted loop model is quadratic in the number of malformations
 KNOWN_FILE = os.path.join(core.VERIF, "known_findings_c18.jsonl")
 
 LATIN = "\u00e9\u00fc\u00df\u00f1\u00c5\u00f8\u0142\u0416\u03a9"
@@ -267,17 +281,25 @@ def check_C18(tier, seed):
             "texts with 80% of lengths in 0..40, YAML-ish documents, yaml-test-suite, token/line soups, long texts up to 4k) x 6 "
             "encodings x 7 trap configurations (Strict, Ignore, Replace, Call x 4 callbacks); byte strings: exhaustive <= 4 "
             "(quick) / 6 (thorough) over {00,0A,20,2D,41,80,C3,E4,FE,FF}, exhaustive <= 3/5 over a 15-byte surrogate/BOM "
-            "alphabet, random bytes, truncated / garbled encodings; non-trivial = distinct byte inputs that are UTF-16, "
-            "contain a non-ASCII byte or are malformed")
+            "alphabet, random bytes, truncated / garbled encodings; the extracted decoder models (decode_model) and the "
+            "one-shot specification (decode_spec) on all of these byte strings <= 320 bytes (+ a sample of longer ones) under "
+            "Strict / Ignore / Replace and, for malformed inputs, under observing callbacks (every invocation: lengths, rest, "
+            "capacity, text so far), plus capacity probes (malformed . text . malformed) under callbacks that shrink the output "
+            "String to len + 0..7; non-trivial = distinct byte inputs that are UTF-16, contain a non-ASCII byte or are malformed")
     res.assumptions = [
-        "encoding_rs 0.8 (trusted, not modelled): its UTF-8 / UTF-16 decoders turn bytes into the right characters and meet "
-        "decoder_contract with K = DECODER_K = 4 (handles.rs check_space_astral); validated only indirectly: every run of the "
-        "implementation returned, and its results equal an independent decoding",
-        "Python's utf-8 / utf-16-le / utf-16-be codecs (strict / ignore / replace and UnicodeDecodeError.start/end) as the "
-        "independent reference for what the bytes mean in the encoding the model detects",
-        "String::reserve modelled as RawVec::grow_amortized for u8 (max(2*cap, len+additional, 8)); the theorem only uses "
-        "reserve(len, cap, add) - len >= add",
-        "a YAMLDecodingTrapFn callback is a total function (it returns and does not panic)",
+        "encoding_rs 0.8.41 behaves like its models in coq/Model/Decoders.v (UTF-8 and UTF-16LE/BE decoders as incremental "
+        "decoders: fast paths, byte-wise state machines, capacity discipline, BOM sniffing of new_decoder()); NOT proved - "
+        "validated on every run: the extracted decode_model and the real decode agree on every generated byte string in "
+        "result text (through the documents), error index and malformed bytes, and in every callback invocation (lengths, "
+        "rest of the input, text decoded so far, capacity of the output String, incl. callbacks that shrink the capacity "
+        "to len + 0..7 so that the decoder's OutputFull rule shows). Proved about the models: the contract of the "
+        "termination theorem (every state), and decode_model = decode_spec (every input, trap, callback)",
+        "Python's utf-8 / utf-16-le / utf-16-be codecs (strict / ignore / replace and UnicodeDecodeError.start/end) as a "
+        "second, independent reference for what the bytes mean in the encoding the model detects",
+        "String::reserve / String::push / String::shrink_to modelled as RawVec::grow_amortized for u8 (max(2*cap, "
+        "len+additional, 8)) resp. capacity = max(len, min_capacity); validated by the capacities the callbacks observe",
+        "a YAMLDecodingTrapFn callback is a total function (it returns and does not panic); in the result theorem its effect "
+        "on the text does not depend on the capacity it is handed",
     ]
     if not (res.harness_ok and res.model_ok):
         return res.finish(proof, rule)
@@ -488,6 +510,13 @@ def check_C18(tier, seed):
     res.coverage["loop_model_cases"] = len(toy_cases)
     res.coverage["traces_validated_against_impl"] = len(allb) + len(toy_cases)
 
+    # ---------------------------------------------------------------------------------------------
+    # D. decoder models + one-shot specification vs implementation
+    # ---------------------------------------------------------------------------------------------
+    t0 = time.time()
+    check_models(res, rng, tier, allb, b_out, texts, loaded, violation)
+    res.coverage["decoder_model_seconds"] = round(time.time() - t0, 1)
+
     for cls, h in known_hits.items():
         b, t, name, got, want = h["first"]
         res.known.append("%s: %d inputs; e.g. bytes %s = %s of the text U+FEFF+%r: decode gives `%s`, Yaml::load_from_str of that "
@@ -520,3 +549,186 @@ def alt_detection(b, impl_strict, loaded):
             if want is not None and want == impl_strict and enc not in hits:
                 hits.append(enc)
     return hits[0] if len(hits) == 1 else None
+
+
+# ------------------------------------------------------------------------------------------------
+# D. decoder models + one-shot specification vs implementation
+# ------------------------------------------------------------------------------------------------
+def probe_inputs(tier, rng, texts):
+    """capacity probes: a malformed sequence, an encoded text, a malformed sequence - the callback that follows the first
+    one fixes the spare capacity the decoder then works with"""
+    out = []
+    bad = {"utf-8": [b"\xff", b"\x80", b"\xe4\xb8", b"\xf0\x9f\x98"], "utf-16-le": [b"\x00\xdc", b"\x00\xd8"],
+           "utf-16-be": [b"\xdc\x00", b"\xd8\x00"]}
+    pre = {"utf-8": b"a", "utf-16-le": b"a\0", "utf-16-be": b"\0a"}
+    pool = [t for t in texts if 0 < len(t) <= 12]
+    rng.shuffle(pool)
+    fam = ["a", "ab", "abc", "abcd", "abcde", "é", "aé", "éa", "éab", "中", "a中", "中a", "中abcd",
+           "\U0001f600", "a\U0001f600", "ab\U0001f600", "abc\U0001f600", "\U0001f600a", "ééé", "中文字",
+           "abcdefghé", "abcdefgéh", "abécd中ef\U0001f600gh", "﻿", "﻿a", "퟿"]
+    for t in fam + pool[:150 if tier == "quick" else 3000]:
+        for codec in ("utf-8", "utf-16-le", "utf-16-be"):
+            try:
+                body = t.encode(codec)
+            except UnicodeEncodeError:
+                continue
+            for b1 in bad[codec]:
+                for b2 in bad[codec][:2] + [b""]:
+                    out.append(pre[codec] + b1 + body + b2)
+                    out.append(pre[codec] + b1 + body + b1 + body + b2)
+    return out
+
+
+def mask_cap(r):
+    """' obs=n:a,b,c,CAP,delta;...' with every CAP replaced by '-' (the specification has no capacity)"""
+    i = r.rfind(" obs=")
+    if i < 0:
+        return r
+    head, tail = r[:i], r[i + 5:]
+    n, _, body = tail.partition(":")
+    ents = []
+    for e in body.split(";") if body else []:
+        f = e.split(",", 4)
+        if len(f) == 5:
+            f[3] = "-"
+        ents.append(",".join(f))
+    return "%s obs=%s:%s" % (head, n, ";".join(ents))
+
+
+def split_obs(r):
+    i = r.rfind(" obs=")
+    return (r, None) if i < 0 else (r[:i], r[i:])
+
+
+def check_models(res, rng, tier, allb, b_out, texts, loaded, violation):
+    builtin = ["strict", "ignore", "replace"]
+    small = [(b, line) for b, line in zip(allb, b_out) if len(b) <= MODEL_MAXLEN]
+    big = [(b, line) for b, line in zip(allb, b_out) if len(b) > MODEL_MAXLEN]
+    rng.shuffle(big)
+    cases = small + big[:30 if tier == "quick" else 300]
+    rng.shuffle(cases)                    # spread the long inputs over the shards
+    blobs = [c[0] for c in cases]
+    lines = [bl(b) for b in blobs]
+    impl_builtin = []
+    for b, line in cases:
+        rs = line.split("\t")
+        impl_builtin.append(rs[:3] if len(rs) == len(MODES) else None)
+    model1 = run_mx(["model"] + builtin, lines, tag="C18")
+    spec1 = run_mx(["spec"] + builtin, lines, tag="C18")
+    # the observing callbacks: everything malformed (callbacks happen) and a sample of the well-formed inputs
+    ocases = [b for (b, _), ib in zip(cases, impl_builtin) if ib and ib[0].startswith("DECODEERR")]
+    wf = [b for (b, _), ib in zip(cases, impl_builtin) if ib and not ib[0].startswith("DECODEERR")]
+    ocases += wf[:3000 if tier == "quick" else 60000]
+    olines = [bl(b) for b in ocases]
+    impl_obs = run_bin("hx_c18", OBS_ALL, olines)
+    model_obs = run_mx(["model"] + OBS_ALL, olines, tag="C18")
+    spec_obs = run_mx(["spec"] + OBS_ALL, olines, tag="C18")
+    # capacity probes under the shrinking callbacks (and everything malformed that is short)
+    seen = set(blobs)
+    probes = [b for b in probe_inputs(tier, rng, texts) if b not in seen]
+    probes = list(dict.fromkeys(probes))
+    mal_short = [b for (b, _), ib in zip(cases, impl_builtin) if ib and ib[0].startswith("DECODEERR") and len(b) <= 24]
+    rng.shuffle(mal_short)
+    pcases = probes + mal_short[:6000 if tier == "quick" else 120000]
+    plines = [bl(b) for b in pcases]
+    pmodes = builtin + ["obs-replace"] + OBS_SHRINK
+    impl_p = run_bin("hx_c18", pmodes, plines)
+    model_p = run_mx(["model"] + pmodes, plines, tag="C18")
+    spec_p = run_mx(["spec"] + pmodes, plines, tag="C18")
+
+    # texts the model / specification produce that have not been loaded yet
+    need = set()
+
+    def text_of(r):
+        head, _ = split_obs(r)
+        if head.startswith("TEXT"):
+            t = head[5:]
+            try:
+                return "".join(chr(int(x)) for x in t.split(".")) if t else ""
+            except ValueError:
+                return None
+        return None
+
+    for outs in (model1, spec1, model_obs, spec_obs, model_p, spec_p):
+        for l in outs:
+            for r in l.split("\t"):
+                t = text_of(r)
+                if t is not None and t not in loaded:
+                    try:
+                        t.encode("utf-8")
+                        need.add(t)
+                    except UnicodeEncodeError:
+                        pass
+    need = list(need)
+    loaded2 = dict(loaded)
+    loaded2.update(zip(need, run_bin("hx_c18", ["text"], [tl(t) for t in need])))
+
+    def expect_of(r, b):
+        """what the implementation must print for a model / specification result"""
+        head, obs = split_obs(r)
+        if head.startswith("TEXT"):
+            t = text_of(r)
+            want = loaded2.get(t, "NOT-A-TEXT") if t is not None else "NOT-A-TEXT"
+        elif head.startswith("DECODEERR "):
+            f = head.split(" ")
+            seq = [int(x) for x in f[2].split(".")] if len(f) > 2 and f[2] else []
+            want = "DECODEERR Invalid character sequence at %s: %s" % (f[1], str(seq))
+        elif head == "CBERR":
+            want = "DECODEERR custom"
+        else:
+            want = "MODEL:" + head
+        return want + (obs or "")
+
+    counts = dict(model=0, spec=0, callbacks=0)
+    bad_m = bad_s = 0
+
+    def compare(b, modes, impl_rs, model_l, spec_l):
+        nonlocal bad_m, bad_s
+        mr, sr = model_l.split("\t"), spec_l.split("\t")
+        if len(mr) != len(modes) or len(sr) != len(modes):
+            res.add_tie_break("the extracted decoder model / specification gave no answer", case=bl(b), model=model_l[:200], spec=spec_l[:200])
+            return
+        for m, ir, mo, so in zip(modes, impl_rs, mr, sr):
+            ihead, _ = split_obs(ir)
+            if abnormal(ihead) or ihead in ("NOTRUN", "|NOTRUN"):
+                continue                                  # reported by B
+            res.evaluations += 1
+            counts["model"] += 1
+            i = ir.rfind(" obs=")
+            if i >= 0:
+                counts["callbacks"] += int(ir[i + 5:].partition(":")[0] or 0)
+            wm = expect_of(mo, b)
+            if wm != ir:
+                bad_m += 1
+                if bad_m <= 20:
+                    res.add_tie_break("correspondence: decoder model (decode_model) != implementation under %s" % m, case=bl(b),
+                                      bytes_hex=b.hex(), model=mo[:400], impl=ir[:400], expected_impl=wm[:400])
+            counts["spec"] += 1
+            ws = expect_of(so, b)
+            if ws != mask_cap(ir):
+                bad_s += 1
+                if bad_s <= 20:
+                    violation("the result of decode under %s is not the one-shot decoding of the specification (decode_spec)" % m, b,
+                              trap=m, spec=so[:400], impl=ir[:400], expected_impl=ws[:400])
+
+    for (b, _), ib, ml, sl in zip(cases, impl_builtin, model1, spec1):
+        if ib is not None:
+            compare(b, builtin, ib, ml, sl)
+    for b, io, ml, sl in zip(ocases, impl_obs, model_obs, spec_obs):
+        ios = io.split("\t")
+        if len(ios) == len(OBS_ALL):
+            compare(b, OBS_ALL, ios, ml, sl)
+    for b, ip, ml, sl in zip(pcases, impl_p, model_p, spec_p):
+        ips = ip.split("\t")
+        if len(ips) != len(pmodes):
+            continue
+        if b:
+            res.nontrivial.add(b)
+        compare(b, pmodes, ips, ml, sl)
+    if bad_m > 20:
+        res.add_tie_break("correspondence: %d decoder-model disagreements in total (first 20 listed)" % bad_m)
+    res.coverage["decoder_model_cases"] = dict(inputs=len(cases), **{'longer_than_%d' % MODEL_MAXLEN: min(len(big), 30 if tier == "quick" else 300)},
+                                               capacity_probes=len(pcases), model_results_compared=counts["model"],
+                                               spec_results_compared=counts["spec"], callback_invocations_compared=counts["callbacks"],
+                                               observed_inputs=len(ocases), modes=builtin + OBS_ALL, probe_modes=pmodes)
+    res.coverage["traces_validated_against_impl"] = res.coverage.get("traces_validated_against_impl", 0) + counts["model"]
